@@ -67,7 +67,7 @@ PROPS = {
     "C08": dict(level="proof", canaries=[(CANARY, "canary:filter-yields-before-test")],
                 trusted_base=TB_COMMON + ["specification ScopeSpec/ScopedSpec (contracts/refs/ref_asynctools.py) written from the property", "nesting explored to depth 2 (an inner scope's iterator is the outer handle, whose aclose is a no-op: deeper nesting repeats the same step)"],
                 explanation="histories inside the block (next, close, closing tool, nested scope enter/exit) and both exit kinds (normal / BaseException as for cancellation): the underlying iterator's close counter is 0 after every operation inside the block, exactly 1 after leaving the outermost scope, and the handle yields nothing afterwards"),
-    "C09": dict(level="proof", canaries=[(CANARY, "canary:filter-yields-before-test")],
+    "C09": dict(level="proof", canaries=[(CANARY, "canary:filter-yields-before-test")], extra=[extras.seq_suffix_lemma],
                 trusted_base=TB_COMMON + ["ghost state: hist = sequence of items the source answered, y_p = number of items child p yielded",
                                           "deque/list contract (append, popleft, pop(idx), identity search) of the interpreter; z3 sequence theory with cvc5 --strings-exp as second back end for queries z3 leaves unknown",
                                           "cooperative scheduling: children interleave at yields (consumer loop) and, with a lock, at the lock and inside the source"],
